@@ -144,9 +144,10 @@ WellFormed(ts) ==
   /\ \A i, j \in DOMAIN ts : i # j =>
         ExprSeq(SelectSeq(ts[i], LAMBDA x : ~IsLiteral(x))) # ExprSeq(SelectSeq(ts[j], LAMBDA x : ~IsLiteral(x)))
 
-Reject(why) == [st |-> "REJECT", why |-> why, shape |-> "root", lhs |-> <<>>, rhs |-> <<>>]
-Accept(shape, l, r) == [st |-> "OK", why |-> "", shape |-> shape, lhs |-> l, rhs |-> r]
-Unmodelled == [st |-> "UNMODELLED", why |-> "", shape |-> "root", lhs |-> <<>>, rhs |-> <<>>]
+NoTree == [err |-> "", t |-> "leaf", ts |-> <<>>, items |-> <<>>, keys |-> <<>>, vals |-> <<>>]
+Reject(why) == [st |-> "REJECT", why |-> why, shape |-> "root", lhs |-> <<>>, rhs |-> <<>>, tree |-> NoTree]
+Accept(shape, l, r) == [st |-> "OK", why |-> "", shape |-> shape, lhs |-> l, rhs |-> r, tree |-> NoTree]
+Unmodelled == [st |-> "UNMODELLED", why |-> "", shape |-> "root", lhs |-> <<>>, rhs |-> <<>>, tree |-> NoTree]
 
 BigPower(f) == \E i \in DOMAIN f : f[i].k = "value" /\ f[i].ival > MaxPower
 UsesMultistage(f) == \E i \in DOMAIN f : f[i].k = "open" /\ f[i].s = "[" /\
